@@ -69,6 +69,23 @@ CLAIMED = {
              "and C07-subpath-without-move.",
         technique="Lean 4 proof (list induction; abel over an ordered commutative group; case analysis of the printer's decisions) + token-wise differential correspondence + round-trip oracle on the implementation",
         ref="DESIGN.md §4 C07"),
+    "C16": dict(
+        text="Lean 4 theorems. Segment level, over any commutative ring, for every t: the reversed line, quadratic and cubic satisfy "
+             "q(t) = p(1-t); a reversed arc keeps centre and semi-diameters, swaps its endpoints and negates its sweep, so its parameter "
+             "at t is the original's at 1-t; reversing any segment twice restores it. Subpath level, for lists of every length: for a "
+             "connected subpath that begins with its own move, Subpath.reverse (Model/Reverse: move kept in place and re-targeted, "
+             "drawn segments individually reversed in reverse order, close kept last and re-targeted) preserves the number of drawn "
+             "segments, closed stays closed and open stays open, no drawn segment is lost (reversing all again gives the original list), "
+             "the result is connected from the old end back to the old start with the close returning to the new start, and reversing "
+             "twice restores the subpath exactly. The model (whole-path reverse incl. re-assembly in reverse order, and subpath-view "
+             "reverse) is compared segment-for-segment with the code on every kind sequence up to length 4/6 and on random paths; the "
+             "property's relations (per-segment q(t)=p(1-t), kinds per subpath in reverse order, connectivity, points kept, involution, "
+             "view-locality, commutation with transforms) are evaluated on the implementation.",
+        note="Partial: the theorems require every subpath to begin with its own move; for other paths the statement is false of the code "
+             "(known finding C16-subpath-without-move, witnessed each run). Whole-path involution (re-assembly across subpaths) and the "
+             "two-index swap loop are validated by correspondence, not proved. Arc traversal uses the evaluator decided by C02/C05.",
+        technique="Lean 4 proof (ring identities; list induction over chains with reverse/append lemmas) + differential correspondence (exhaustive kind sequences) + relation oracle on the implementation",
+        ref="DESIGN.md §4 C16"),
     "C04": dict(
         text="Lean 4 theorems over an arbitrary field: point application/composition associativity, two-sided inverse, "
              "every pre_/post_ operation = left/right multiplication by the elementary matrix about its centre, and "
